@@ -564,6 +564,11 @@ class Gen:
             # swallows that byte; with safe_break it is only generated right behind a literal match, where it runs at once)
             if loops and (not getattr(self.p, "safe_break", False) or getattr(self, "prev_definite", False)): body_opts += [[("break", None)]] * 3
             body_opts += [[("finish", r.choice([None] + self.fcodes))]]
+            if getattr(self.p, "yields", False) and self.ycodes:
+                # a yield inside an if (not embeddable: the if becomes a condition point; as the last statement of a loop body or
+                # of the program every path behind it ends in a state without transitions - fixed defect 3688b30)
+                body_opts += [[("yield", r.choice(self.ycodes))]] * 2
+                if a: body_opts += [[a, ("yield", r.choice(self.ycodes))]]
             body = r.choice(body_opts)
             els = None
             if r.random() < 0.3:
@@ -1130,6 +1135,11 @@ def gen_macro_program(rng, capture=False):
     add("m_nest", [("out", "o2"), ("match", "w2"), ("expr", "e2")], [("call", "m_app", [("pat", ("pmatch", "w2")), ("id", "s0")]), ("call", "m_set", [("id", "o2"), ("expr", ("bin", "+", ("pexpr", "e2"), ("num", 2)))])])
     add("m_each", [("out", "o"), ("match", "w")], [("assign", "o", ("num", 0)), ("foreach", [("match", ("pmatch", "w"))], [("assign", "o", ("bin", "+", ("bin", "*", ("var", "o"), ("num", 10)), ("bin", "-", ("last",), ("chr", 48))))])])
     add("m_yield", [("yieldcode", "y"), ("match", "w")], [("match", ("pmatch", "w")), ("yield", "y")])
+    # one match argument used in two plain match statements, each with its own actions behind it (every use is a fresh match
+    # in the textual expansion; an implementation that shares one object between the uses accumulates the actions)
+    add("m_twice", [("match", "w"), ("out", "o"), ("hook", "h")],
+        [("match", ("pmatch", "w")), ("assign", "o", ("bin", "+", ("var", "o"), ("num", 1))), ("match", delim()),
+         ("match", ("pmatch", "w")), ("hook", "h"), ("match", delim()), ("match", ("pmatch", "w"))])
     # parameters named like global entities, called with the names rotated (simultaneous substitution)
     add("m_swap", [("out", "n0"), ("out", "n1")], [("assign", "n0", ("num", 1)), ("assign", "n1", ("bin", "+", ("var", "n0"), ("num", 2)))])
     add("m_hswap", [("hook", "h0"), ("hook", "h1"), ("match", "w")], [("hook", "h0"), ("match", ("pmatch", "w")), ("hook", "h1")])
@@ -1140,7 +1150,7 @@ def gen_macro_program(rng, capture=False):
         add("m_cap_out", [("expr", "e")], [("call", "m_cap_in", [("expr", ("pexpr", "e"))])])
     body = []
     use_yield = rng.random() < 0.3
-    calls = ["m_set", "m_set2", "m_app", "m_hook", "m_zero", "m_mac", "m_nest", "m_each", "m_swap", "m_hswap", "m_enum", "m_enum2"] + (["m_yield"] if use_yield else [])
+    calls = ["m_set", "m_set2", "m_app", "m_hook", "m_zero", "m_mac", "m_nest", "m_each", "m_swap", "m_hswap", "m_enum", "m_enum2", "m_twice"] + (["m_yield"] if use_yield else [])
     for _ in range(rng.randint(2, 4)):
         c = rng.choice(calls)
         e = rng.choice([("num", rng.choice([1, 5, 40])), ("bin", "*", ("var", "n1"), ("num", 2)), ("var", "n1"), ("bin", "+", ("var", "n0"), ("var", "n1"))])
@@ -1149,6 +1159,7 @@ def gen_macro_program(rng, capture=False):
         elif c == "m_app": body.append(("call", c, [("pat", w), ("id", "s0")])); body.append(("match", delim()))
         elif c == "m_hook": body.append(("call", c, [("id", rng.choice(hooks)), ("pat", lit())]))
         elif c == "m_zero": body.append(("call", c, []))
+        elif c == "m_twice": body.append(("call", c, [("pat", rng.choice([lit(), ("casei", b"xy")])), ("id", rng.choice(["n0", "n1"])), ("id", rng.choice(hooks))])); body.append(("match", delim()))
         elif c in ("m_enum", "m_enum2"): body.append(("call", c, [("id", "en"), ("id", rng.choice(["EA", "EB", "EC"]))])); body.append(("match", delim()))
         elif c == "m_mac": body.append(("call", c, [("id", "m_zero"), ("id", rng.choice(hooks))]))
         elif c == "m_nest": body.append(("call", c, [("id", "n1"), ("pat", w), ("expr", e)])); body.append(("match", delim()))
